@@ -329,6 +329,12 @@ class Gen:
                 out.append(s_obs(cast(T("llong"), var(n))))
                 out.append(s_asg("=", var(n), self.atom(sc)))
                 out.append(s_obs(cast(T("llong"), bin_("+", var(n), flit("double", False, 1)))))
+                # integer op= floating: the operation is done in the floating type, the result converted back (6.5.16.2p3)
+                iv = self.fresh("iv")
+                out.append(s_decl(iv, T(r.choice(["int", "long", "uint", "ulong", "short", "llong"])), i_e(lit("int", r.randrange(1, 100)))))
+                out.append(s_asg("=", var(n), flit(tn, r.random() < 0.3, r.randrange(0, 1000))))
+                out.append(s_asg(r.choice(["+=", "-=", "*=", "/="]), var(iv), var(n) if r.random() < 0.7 else flit(tn, False, r.randrange(1, 9))))
+                out.append(s_obs(var(iv)))
         return [s_block(out)]
 
     def special(self, sc):
